@@ -463,7 +463,7 @@ def check_C09(ctx, rt):
         ctx.evaluations += 1
         r, _t = impl.real_encoder("C(" * 2000 + "C" + ")C" * 2000)
         if r == "err\tRecursionError":
-            add_violation(ctx, "C09:RecursionError:_fragment_to_selfies", "RecursionError escapes selfies.encoder on deeply nested branches",
+            add_violation(ctx, "C09:RecursionError:" + (impl.LAST_FRAME or "?"), "RecursionError escapes selfies.encoder on deeply nested branches",
                           smiles_desc="'C('*2000+'C'+')C'*2000")
         elif r.startswith("err\t") and r != "err\tEncoderError":
             add_violation(ctx, "C09:escape:" + r.split("\t")[1], "exception escapes on deep nesting")
@@ -1145,9 +1145,50 @@ REGISTRY2 = {
 
 # ===================================================================== known findings
 
+def raises(fn, name):
+    try:
+        fn()
+    except BaseException as e:  # noqa
+        return type(e).__name__ == name
+    return False
+
+
+def alias_witness():
+    S = fresh_selfies()
+    try:
+        a = S.get_semantic_robust_alphabet()
+        a.add("[Zz]")
+        return "[Zz]" in S.get_semantic_robust_alphabet()
+    finally:
+        fresh_selfies()
+
+
+def long_charge_witness():
+    try:
+        sf.set_semantic_constraints({"?": 8, "C+" + "1" * 5000: 3})
+    except ValueError:
+        return False
+    try:
+        return any(raises(lambda x=x: sf.decoder(x), "DecoderError") for x in sf.get_semantic_robust_alphabet() if len(x) > 100)
+    finally:
+        sf.set_semantic_constraints("default")
+
+
+def eval_check(expr):
+    global sf
+    sf = sys.modules["selfies"]
+    env = {"sf": sf, "raises": raises, "alias_witness": alias_witness, "long_charge_witness": long_charge_witness}
+    try:
+        return bool(eval(expr, env))
+    except BaseException as e:  # noqa
+        return "exception %s" % type(e).__name__
+
+
 def apply_known_findings(ctx, rt, kf):
-    """split ctx.violations into (covered by a listed open finding -> KNOWN-FINDING line) and uncovered.
-    Fixed findings suppress nothing. Every listed open finding of this property is also replayed."""
+    """split ctx.violations into (covered by a listed open finding) and uncovered; replay the witness of
+    every open finding of this property (KNOWN-FINDING line if it still reproduces) and the witness of
+    every fixed entry (must pass now; otherwise it is a violation again: fixed entries suppress nothing)."""
+    fresh_selfies()
     open_f = [f for f in kf.get("findings", []) if f.get("status") == "open" and ctx.prop in f.get("properties", [])]
     uncovered = []
     hit = {}
@@ -1161,6 +1202,26 @@ def apply_known_findings(ctx, rt, kf):
             uncovered.append(v)
         else:
             hit.setdefault(cov["id"], cov)
-    for fid, f in hit.items():
-        ctx.known_hits.append((fid, "%s: %s" % (fid, f["what"])))
+    for f in open_f:
+        try:
+            res = eval_check(f.get("witness", {}).get("check", "False"))
+        finally:
+            try:
+                sys.modules["selfies"].set_semantic_constraints("default")
+            except Exception:
+                pass
+        if res is True or f["id"] in hit:
+            ctx.known_hits.append((f["id"], "%s: %s" % (f["id"], f["what"])))
+    for f in kf.get("fixed", []):
+        if ctx.prop not in f.get("properties", []):
+            continue
+        res = eval_check(f["check"])
+        try:
+            sys.modules["selfies"].set_semantic_constraints("default")
+        except Exception:
+            pass
+        ctx.evaluations += 1
+        if res is not True:
+            uncovered.append({"sig": "regression:" + f["id"], "what": "a repaired defect is back: " + f["line"],
+                              "check": f["check"], "result": str(res)})
     return uncovered
